@@ -101,13 +101,20 @@ TAdmin ==
   /\ E.ev = "admin" /\ mode = "ok"
   /\ LET b == IdOf(E.name) IN
      CASE E.op = "add" /\ E.status = 201 -> b # 0 /\ Add(b)
-       [] E.op = "remove" /\ E.status = 200 /\ b \in SeqToSet(order) -> Remove(b)
+       [] E.op = "remove" /\ E.status = 200 /\ b \in SeqToSet(order) -> infl[b] = 0 /\ RemoveEff(b)
        [] E.op = "strategy" /\ E.status = 200 /\ E.s # strat -> SetStrategy(E.s)
        [] OTHER -> UNCHANGED vars
   /\ ItemsMatch(E.items, order', flag')
   /\ UNCHANGED held /\ Keep
 
-Conform == TReq \/ THeld \/ TReply \/ TTick \/ TMark \/ TSetProbe \/ TAdmin
+\* The model counts in-flight exchanges per backend NAME and never removes a backend that has one (a bound of the
+\* generator); when the replay does -- only where the abstract hash sent a held exchange elsewhere than the real one --
+\* the rest of the segment is outside what the model describes and is not followed (not a divergence)
+TLeave == /\ E.ev = "admin" /\ mode = "ok" /\ E.op = "remove" /\ E.status = 200
+          /\ IdOf(E.name) \in SeqToSet(order) /\ infl[IdOf(E.name)] > 0
+          /\ UNCHANGED vars /\ UNCHANGED held /\ mode' = "skip" /\ UNCHANGED seg /\ note' = <<>> /\ l' = l + 1
+
+Conform == TLeave \/ TReq \/ THeld \/ TReply \/ TTick \/ TMark \/ TSetProbe \/ TAdmin
 Stepping == E.ev \in {"req", "held", "reply", "tick", "mark", "setprobe", "admin"}
 
 TDiverge ==
